@@ -107,7 +107,7 @@ func cmdDet(fs *flag.FlagSet) {
 	nstates := fs.Int("states", 0, "half-typed buffer states per world besides the documents")
 	fs.Parse(os.Args[2:])
 	hangFile = *out + ".hang"
-	startWatchdog(10 * time.Second)
+	startWatchdog(60 * time.Second)
 	names := strings.Split(*worlds, ",")
 	var wg sync.WaitGroup
 	total := make([]int, len(names))
@@ -236,7 +236,7 @@ func cmdFrame(fs *flag.FlagSet) {
 	stride := fs.Int("stride", 23, "position stride")
 	fs.Parse(os.Args[2:])
 	hangFile = *out + ".hang"
-	startWatchdog(10 * time.Second)
+	startWatchdog(60 * time.Second)
 	names := strings.Split(*worlds, ",")
 	var wg sync.WaitGroup
 	total := make([]int, len(names))
@@ -394,7 +394,7 @@ func cmdShift(fs *flag.FlagSet) {
 	prefixStride := fs.Int("prefixes", 0, "also run on every n-th token prefix of every document (0 = documents only)")
 	fs.Parse(os.Args[2:])
 	hangFile = *out + ".hang"
-	startWatchdog(10 * time.Second)
+	startWatchdog(60 * time.Second)
 	rng := rand.New(rand.NewSource(*seed))
 	type job struct {
 		w    *World // the world with the state's buffer as its document
